@@ -122,9 +122,55 @@ func provenances() []provenance {
 	}
 }
 
+// twoStageCases: a value pushed or COMPUTED, duplicated, and then BOTH views transformed one after the
+// other by every opcode with different operands (family A2 of C08; C05 runs it too).
+func twoStageCases(vals [][]byte, yield func(scriptCase)) {
+	type origin struct {
+		name string
+		mk   func(v []byte) (unlock, lockPre []byte)
+	}
+	origins := []origin{
+		{"pushed", func(v []byte) ([]byte, []byte) { return minimalPush(v), nil }},
+		{"CAT", func(v []byte) ([]byte, []byte) {
+			h := len(v) / 2
+			return append(minimalPush(v[:h]), minimalPush(v[h:])...), []byte{0x7e}
+		}},
+		{"INVERT-INVERT", func(v []byte) ([]byte, []byte) { return minimalPush(v), []byte{0x83, 0x83} }},
+		// computed by the UNLOCKING script: the value crosses the script boundary (whatever storage
+		// the interpreter recycles there must not be the value's)
+		{"INVERT-INVERT in the unlocking script", func(v []byte) ([]byte, []byte) { return append(minimalPush(v), 0x83, 0x83), nil }},
+		{"XOR in the unlocking script", func(v []byte) ([]byte, []byte) {
+			return bytesJoin(minimalPush(v), minimalPush(make([]byte, len(v))), []byte{0x86}), nil
+		}},
+	}
+	dups := [][]byte{{0x76}, {0x76, 0x6b, 0x76, 0x6c}, {0x76, 0x76, 0x6b}} // DUP; a third view to the alt stack and back; a third view parked on the alt stack
+	xs := [][]byte{{0x01}, {0x09}, {0x01, 0x80}, {0xf0, 0x0f}}
+	for _, og := range origins {
+		for _, v := range vals {
+			unlock, pre := og.mk(v)
+			for _, dp := range dups {
+				for op := 0x4f; op < 256; op++ {
+					for _, f := range []uint32{0, fGenesis} {
+						head := bytesJoin(pre, dp)
+						// unary use
+						yield(scriptCase{Unlock: unlock, Lock: bytesJoin(head, []byte{byte(op), 0x7c, byte(op)}), Flags: f})
+						for i, x := range xs {
+							y := xs[(i+1)%len(xs)]
+							yield(scriptCase{Unlock: unlock, Lock: bytesJoin(head, minimalPush(x), []byte{byte(op), 0x7c}, minimalPush(y), []byte{byte(op)}), Flags: f})
+							// the computed value as the right-hand operand
+							yield(scriptCase{Unlock: unlock, Lock: bytesJoin(head, minimalPush(x), []byte{0x7c, byte(op), 0x7c}, minimalPush(y), []byte{0x7c, byte(op)}), Flags: f})
+						}
+					}
+				}
+			}
+		}
+	}
+
+}
+
 func init() {
 	p := register(&Prop{ID: "C08", Level: "model_checking",
-		Rule: "explicit-state exploration of the real interpreter with value-semantics lockstep: (A) provenance x transformer grid: 19 ways of obtaining two stack items backed by the same bytes (direct push from the caller's script, DUP, 2DUP, 3DUP, OVER, 2OVER, PICK, TUCK, IFDUP, SPLIT left/right/at 0, alt-stack round trip, SWAP/ROT/2SWAP/ROLL of a copy, twin parked on the alt stack, CAT with empty) x EVERY opcode byte 0x4f..0xff as transformer x extra operand lists of length 0..2 over 4/6 edge operands x 6 (quick) / 16 (thorough) values V x both eras; (A2) a value pushed / computed by OP_CAT / computed by two OP_INVERTs, duplicated (DUP; third view through the alt stack; third view parked there), then BOTH views transformed one after the other by EVERY opcode 0x4f..0xff with different operands (as left and as right operand); caller script buffers have no spare capacity; (B) the mixed-alphabet program search of C05 (all programs to depth 3/4 from 79 seed stacks) and its P2SH / limit templates; (C) signature runs: valid and invalid P2PKH, P2PK and 2-of-3 multisig spends with real signatures, FORKID and legacy, both eras, with OP_CODESEPARATOR and signature-in-script variants (CHECKSIG and CHECKMULTISIG); (D) a transaction that does not re-parse (31-byte previous txid on another input), checked input last, CHECKSIG and CHECKMULTISIG with every hash-type byte x 4 flag words x 0..3 outputs: every output and the serialisation unchanged. Oracles on every execution: every item of both stacks equals the value-semantics reference after every instruction; the caller's locking and unlocking script buffers are byte-identical afterwards; tx.Bytes() is unchanged and the checked input records nothing but the spent output; with and without a debugger attached, and with the scripts handed over through WithScripts for a transaction whose checked input has no unlocking script yet. states = distinct snapshots, transitions = instructions compared",
+		Rule: "explicit-state exploration of the real interpreter with value-semantics lockstep: (A) provenance x transformer grid: 19 ways of obtaining two stack items backed by the same bytes (direct push from the caller's script, DUP, 2DUP, 3DUP, OVER, 2OVER, PICK, TUCK, IFDUP, SPLIT left/right/at 0, alt-stack round trip, SWAP/ROT/2SWAP/ROLL of a copy, twin parked on the alt stack, CAT with empty) x EVERY opcode byte 0x4f..0xff as transformer x extra operand lists of length 0..2 over 4/6 edge operands x 6 (quick) / 16 (thorough) values V x both eras; (A2) a value pushed / computed by OP_CAT / computed by two OP_INVERTs (in the locking script, and in the UNLOCKING script so that it crosses the script boundary) / by OP_XOR in the unlocking script, duplicated (DUP; third view through the alt stack; third view parked there), then BOTH views transformed one after the other by EVERY opcode 0x4f..0xff with different operands (as left and as right operand); caller script buffers have no spare capacity; (B) the mixed-alphabet program search of C05 (all programs to depth 3/4 from 79 seed stacks) and its P2SH / limit templates; (C) signature runs: valid and invalid P2PKH, P2PK and 2-of-3 multisig spends with real signatures, FORKID and legacy, both eras, with OP_CODESEPARATOR and signature-in-script variants (CHECKSIG and CHECKMULTISIG); (D) a transaction that does not re-parse (31-byte previous txid on another input), checked input last, CHECKSIG and CHECKMULTISIG with every hash-type byte x 4 flag words x 0..3 outputs: every output and the serialisation unchanged. Oracles on every execution: every item of both stacks equals the value-semantics reference after every instruction; the caller's locking and unlocking script buffers are byte-identical afterwards; tx.Bytes() is unchanged and the checked input records nothing but the spent output; with and without a debugger attached, and with the scripts handed over through WithScripts for a transaction whose checked input has no unlocking script yet. states = distinct snapshots, transitions = instructions compared",
 	})
 	NewSpace(p, "exec", c08Check)
 	spOdd := NewSpace(p, "odd-tx", c08OddCheck)
@@ -194,42 +240,7 @@ func init() {
 		// (A2) the value is COMPUTED (by OP_CAT, by two OP_INVERTs) or pushed, duplicated, and then
 		// BOTH views are transformed one after the other with different operands: an opcode that
 		// recognises "its own" buffer, or judges an operand unshared, shows here
-		sp.Each(r, func(yield func(scriptCase)) {
-			type origin struct {
-				name string
-				mk   func(v []byte) (unlock, lockPre []byte)
-			}
-			origins := []origin{
-				{"pushed", func(v []byte) ([]byte, []byte) { return minimalPush(v), nil }},
-				{"CAT", func(v []byte) ([]byte, []byte) {
-					h := len(v) / 2
-					return append(minimalPush(v[:h]), minimalPush(v[h:])...), []byte{0x7e}
-				}},
-				{"INVERT-INVERT", func(v []byte) ([]byte, []byte) { return minimalPush(v), []byte{0x83, 0x83} }},
-			}
-			dups := [][]byte{{0x76}, {0x76, 0x6b, 0x76, 0x6c}, {0x76, 0x76, 0x6b}} // DUP; a third view to the alt stack and back; a third view parked on the alt stack
-			xs := [][]byte{{0x01}, {0x09}, {0x01, 0x80}, {0xf0, 0x0f}}
-			for _, og := range origins {
-				for _, v := range vals {
-					unlock, pre := og.mk(v)
-					for _, dp := range dups {
-						for op := 0x4f; op < 256; op++ {
-							for _, f := range []uint32{0, fGenesis} {
-								head := bytesJoin(pre, dp)
-								// unary use
-								yield(scriptCase{Unlock: unlock, Lock: bytesJoin(head, []byte{byte(op), 0x7c, byte(op)}), Flags: f})
-								for i, x := range xs {
-									y := xs[(i+1)%len(xs)]
-									yield(scriptCase{Unlock: unlock, Lock: bytesJoin(head, minimalPush(x), []byte{byte(op), 0x7c}, minimalPush(y), []byte{byte(op)}), Flags: f})
-									// the computed value as the right-hand operand
-									yield(scriptCase{Unlock: unlock, Lock: bytesJoin(head, minimalPush(x), []byte{0x7c, byte(op), 0x7c}, minimalPush(y), []byte{0x7c, byte(op)}), Flags: f})
-								}
-							}
-						}
-					}
-				}
-			}
-		})
+		sp.Each(r, func(yield func(scriptCase)) { twoStageCases(vals, yield) })
 		r.Sample("exec", scriptCase{Unlock: HB{0x02, 0x01, 0x80}, Lock: HB{0x76, 0x81}, Flags: 0})
 		// (B) mixed program search
 		c05BFSJob(r, p, "exec", chk, thorough, true)
